@@ -155,8 +155,10 @@ def _converter_contract(ap, ftype):
             c.ensure_eq('C20.converter.thickness', c.val(sg.get_thickness(0)), T[0])
         else:
             c.ensure('C20.converter.object_at_infinity', lens.object_surface.is_infinite)
-        for i in range(8):
-            c.ensure_eq('C20.converter.aspheric_coefficients', sg.surfaces[3].geometry.c[i], co[i])
+        got_c = list(sg.surfaces[3].geometry.c)
+        c.ensure('C20.converter.every_written_aspheric_coefficient_is_imported', len(got_c) == 8)
+        for i in range(min(8, len(got_c))):
+            c.ensure_eq('C20.converter.aspheric_coefficients', got_c[i], co[i])
         c.ensure('C20.converter.media', c.same(sg.surfaces[1].material_post, glass) and c.same(sg.surfaces[2].material_pre, glass))
         c.ensure('C20.converter.stop_surface', sg.stop_index == 2)
         c.ensure('C20.converter.aperture', lens.aperture.ap_type == ap)
